@@ -54,19 +54,26 @@ def txt_of(pairs):
 
 
 def svc_args(idx, sn, variant):
-    """-> (name, type, [packed addrs], port, txt) for id index idx.  variant: v | noid | linklocal | badint"""
+    """-> (name, type, [packed addrs], port, txt) for id index idx.
+    variant: v | noid | linklocal | badint, and the forms that share the TXT rdata of v<sn>: n | l | p"""
     idtxt = IDS[idx].upper().encode() if sn % 2 == 0 else IDS[idx].encode()
     pairs = [(b"c#", b"%d" % (sn + 1)), (b"id" if (sn % 3 or variant == "linklocal") else b"ID", idtxt), (b"md", b"unit"), (b"s#", b"%d" % sn),
              (b"ci", b"5"), (b"sf", b"0")]
     addrs = [socket.inet_aton("169.254.7.7"), socket.inet_aton("10.0.0.%d" % (idx + 1)),
              socket.inet_pton(socket.AF_INET6, "fe80::1")]
+    port = 5000 + idx
     if variant == "noid":
         pairs = [p for p in pairs if p[0].lower() != b"id"]
-    elif variant == "linklocal":
+    elif variant == "n":            # same TXT as the valid record, address records not known yet
+        addrs = []
+    elif variant == "p":            # same TXT as the valid record, the accessory moved (new address and port)
+        addrs = [socket.inet_aton("10.0.1.%d" % (idx + 1))]
+        port = 6000 + idx
+    elif variant in ("linklocal", "l"):
         addrs = [socket.inet_aton("169.254.7.7"), socket.inet_pton(socket.AF_INET6, "fe80::1")]
     elif variant == "badint":
         pairs[3] = (b"s#", b"1x")
-    return ("dev%d.%s" % (idx, HAP_TCP)).encode(), HAP_TCP.encode(), addrs, 5000 + idx, txt_of(pairs)
+    return ("dev%d.%s" % (idx, HAP_TCP)).encode(), HAP_TCP.encode(), addrs, port, txt_of(pairs)
 
 
 def mfr_of(idx, sn, variant):
@@ -97,12 +104,18 @@ def svc_line(args):
 
 
 def catalogue():
-    """symbols -> definitions for the schedule streams.  m<idx>v<sn>, m<idx>i<j>, b<idx>v<sn>, b<idx>i<j>"""
+    """symbols -> definitions for the schedule streams.  m<idx>v<sn>, m<idx>i<j>, b<idx>v<sn>, b<idx>i<j>, and
+    m<idx>{p|n|l}<sn>: records of the SAME service with the SAME TXT rdata as m<idx>v<sn> (moved / no address
+    yet / link-local only), so that one service name has a history"""
     cat = {}
     for idx in (0, 1):
         for sn in range(8):
             cat[f"m{idx}v{sn}"] = dict(tr="m", args=svc_args(idx, sn, "v"), valid=True, id=IDS[idx], cn=sn + 1, sn=sn)
             cat[f"b{idx}v{sn}"] = dict(tr="b", md=mfr_of(idx, sn, "v"), valid=True, id=IDS[idx], cn=(sn + 1) & 0xFF, sn=sn, idx=idx)
+            # one service name, same TXT rdata, different completeness / endpoint
+            cat[f"m{idx}p{sn}"] = dict(tr="m", args=svc_args(idx, sn, "p"), valid=True, id=IDS[idx], cn=sn + 1, sn=sn)
+            cat[f"m{idx}n{sn}"] = dict(tr="m", args=svc_args(idx, sn, "n"), valid=False, id=IDS[idx], cn=0, sn=0)
+            cat[f"m{idx}l{sn}"] = dict(tr="m", args=svc_args(idx, sn, "l"), valid=False, id=IDS[idx], cn=0, sn=0)
         for j, var in enumerate(MDNS_BAD):
             cat[f"m{idx}i{j}"] = dict(tr="m", args=svc_args(idx, 9, var), valid=False, id=IDS[idx], cn=0, sn=0)
         for j, var in enumerate(BLE_BAD):
@@ -170,7 +183,7 @@ def impl_objects():
     from bleak.backends.scanner import AdvertisementData
     for sym, c in CAT.items():
         if c["tr"] == "m":
-            _impl_cache[sym] = make_info(c["args"])
+            _impl_cache[sym] = make_scripted(c["args"])     # browser path: the record counts as resolved
         else:
             dev = BLEDevice(address="00:11:22:33:44:%02X" % c["idx"], name="Dev%d" % c["idx"], details=None)
             md = {} if c["md"] is None else {76: c["md"]}
@@ -310,6 +323,17 @@ class Rig:
                                        for k, v in c.discoveries.items())) or "-")
         return " / ".join(out)
 
+    def endpoints(self):
+        """id:address:port:c#:s# of every mDNS discovery (what a connection would be made to)"""
+        if self.kind == "ble":
+            return "-"
+        out = []
+        for k, v in self.ip.discoveries.items():
+            d = v.description
+            out.append(f"{hx(str(k).encode())}:{ipaddress.ip_address(str(d.address).split('%')[0]).packed.hex()}:{int(d.port)}"
+                       f":{int(d.config_num)}:{int(d.state_num)}")
+        return ",".join(sorted(out)) or "-"
+
     async def stop(self):
         for p in self.loaded:
             try:
@@ -400,9 +424,10 @@ async def exec_schedule(loop, kind, events, objs):
             res.setdefault(k, "pending")
             t.cancel()
     discs = rig.discoveries()
+    eps = rig.endpoints()
     await rig.stop()
     await settle(loop)
-    return canon(res, raised, discs)
+    return canon(res, raised, discs), eps
 
 
 def canon(res, raised, discs):
@@ -415,9 +440,9 @@ def strip_exc(c):
     return a + "|" + ",".join(x.split(":")[0] for x in r.split(",") if x) + "|" + d
 
 
-def run_impl(kind, scheds, objs=None):
-    """[events] -> [canonical result]; one virtual loop per 500 schedules"""
-    out = []
+def run_impl(kind, scheds, objs=None, want_ep=False):
+    """[events] -> [canonical result] (and, on request, the mDNS endpoints); one virtual loop per 500 schedules"""
+    out, eps = [], []
     with Patches():
         objs = objs or impl_objects()
         for i in range(0, len(scheds), 500):
@@ -426,13 +451,28 @@ def run_impl(kind, scheds, objs=None):
             async def main(loop, part=part):
                 for evs in part:
                     try:
-                        out.append(await exec_schedule(loop, kind, evs, objs))
+                        c, e = await exec_schedule(loop, kind, evs, objs)
                     except vloop.Stalled:
                         raise
-                    except Exception as e:  # noqa
-                        out.append("harness-error:%s:%s||" % (type(e).__name__, str(e)[:80].replace("|", "/")))
+                    except Exception as e2:  # noqa
+                        c, e = "harness-error:%s:%s||" % (type(e2).__name__, str(e2)[:80].replace("|", "/")), "?"
+                    out.append(c)
+                    eps.append(e)
             vloop.run(main)
-    return out
+    return (out, eps) if want_ep else out
+
+
+def expected_endpoints(kind, events):
+    """reference: the discovery of an id shows the first usable address, the port and the c#/s# of the LATEST
+    valid mDNS record processed for it"""
+    if kind == "ble":
+        return "-"
+    ep = {}
+    for ev in events:
+        if ev[0] in ("A", "Ab") and ev[1] in CAT and CAT[ev[1]]["tr"] == "m" and CAT[ev[1]]["valid"]:
+            _, _, addrs, port, _ = CAT[ev[1]]["args"]
+            ep[CAT[ev[1]]["id"]] = (findref.ref_addresses(list(addrs))[0], port, CAT[ev[1]]["cn"], CAT[ev[1]]["sn"])
+    return ",".join(sorted(f"{hx(i.encode())}:{a.hex()}:{p}:{cn}:{sn}" for i, (a, p, cn, sn) in ep.items())) or "-"
 
 
 # ================================================================ model side
@@ -484,17 +524,57 @@ def wid_for(kind, k, idx):
     return IDS[idx].upper() if (kind != "ble" and k % 2 == 1) else IDS[idx]
 
 
+def _sym_parts(sym):
+    """m0v3 -> ('m', 0, 'v', 3)"""
+    return sym[0], int(sym[1]), sym[2], int(sym[3:])
+
+
+BLE_REPEAT = [True]      # set False in the quick tier (the identical BLE advertisement again: thorough + directed only)
+
+
+def _history_options(tr, idx, pos, last):
+    """advertisement symbols offered at position pos for service/device idx of transport tr, given the last
+    record processed for that service (None or (form, g)):
+      a valid record with fresh content; a record of the SAME service that repeats the previous TXT rdata
+      (complete now / moved to a new address+port; BLE: the identical advertisement again); an invalid one
+      (mDNS rotating over: no address yet, link-local only - both with fresh TXT that a later repeat shares -
+      missing id, bad integer)"""
+    opts = [f"{tr}{idx}v{pos}"]
+    if last is not None:
+        form, g = last
+        if tr == "m" and form in "vnl":
+            opts.append(f"m{idx}p{g}")
+        elif tr == "m" and form == "p":
+            opts.append(f"m{idx}v{g}")
+        elif tr == "b" and form == "v" and BLE_REPEAT[0]:
+            opts.append(f"b{idx}v{g}")
+    if tr == "m":
+        opts.append([f"m{idx}n{pos}", f"m{idx}l{pos}", f"m{idx}i0", f"m{idx}i2"][pos % 4])
+    else:
+        opts.append(f"b{idx}i{pos % len(BLE_BAD)}")
+    return opts
+
+
 def expand(kind, prefix, depth):
     """all schedules of exactly `depth` events extending `prefix` (a list of events), each followed by a
     final flush.  Pruning (by the reference bookkeeping below, not by the model): callers start in the
     order 1,2,3; id 2 appears only after id 1 (renaming symmetry); only callers that the reference
-    considers still waiting are cancelled."""
+    considers still waiting are cancelled.  Advertisements carry a per-service history, see
+    _history_options."""
     trs = {"mdns": "m", "ble": "b", "agg": "mb"}[kind]
     cancels = ("C", "Cq") if kind == "ble" else ("C",)
     out = []
 
+    def after_adv(sym, pend, known, last):
+        tr, idx, form, g = _sym_parts(sym)
+        last2 = dict(last)
+        last2[(tr, idx)] = (form, g) if form in "vpnl" else None
+        if CAT[sym]["valid"]:
+            return {k: v for k, v in pend.items() if v[0] != idx}, known | {(tr, idx)}, last2
+        return pend, known, last2
+
     def replay(evs):
-        nextk, seen0, pend, now, known = 1, False, {}, 0, set()
+        nextk, seen0, pend, now, known, last = 1, False, {}, 0, frozenset(), {}
         for ev in evs:
             if ev[0] == "F":
                 idx = IDS.index(ev[2].lower())
@@ -503,20 +583,16 @@ def expand(kind, prefix, depth):
                     pend[ev[1]] = (idx, now + ev[3])
                 nextk = ev[1] + 1
             elif ev[0] == "A":
-                c = CAT[ev[1]]
-                idx = IDS.index(c["id"])
                 seen0 = True
-                if c["valid"]:
-                    known.add((c["tr"], idx))
-                    pend = {k: v for k, v in pend.items() if v[0] != idx}
+                pend, known, last = after_adv(ev[1], pend, known, last)
             elif ev[0] in ("C", "Cq"):
                 pend.pop(ev[1], None)
             elif ev[0] == "T":
                 now += ev[1]
                 pend = {k: v for k, v in pend.items() if v[1] > now}
-        return nextk, seen0, pend, now, known
+        return nextk, seen0, pend, now, known, last
 
-    def rec(evs, nextk, seen0, pend, now, known):
+    def rec(evs, nextk, seen0, pend, now, known, last):
         pos = len(evs)
         if pos == depth:
             out.append(evs + [("T", FLUSH)])
@@ -529,19 +605,18 @@ def expand(kind, prefix, depth):
                     p2 = dict(pend)
                     if not any(i == idx for (_, i) in known):
                         p2[nextk] = (idx, now + tau)
-                    rec(evs + [("F", nextk, wid_for(kind, nextk, idx), tau)], nextk + 1, True, p2, now, known)
+                    rec(evs + [("F", nextk, wid_for(kind, nextk, idx), tau)], nextk + 1, True, p2, now, known, last)
         for tr in trs:
             for idx in (0, 1):
                 if idx == 1 and not seen0:
                     continue
-                rec(evs + [("A", f"{tr}{idx}v{pos}")], nextk, True, {k: v for k, v in pend.items() if v[0] != idx},
-                    now, known | {(tr, idx)})
-                nbad = len(MDNS_BAD) if tr == "m" else len(BLE_BAD)
-                rec(evs + [("A", f"{tr}{idx}i{pos % nbad}")], nextk, True, pend, now, known)
+                for sym in _history_options(tr, idx, pos, last.get((tr, idx))):
+                    p2, k2, l2 = after_adv(sym, pend, known, last)
+                    rec(evs + [("A", sym)], nextk, True, p2, now, k2, l2)
         for k in sorted(pend):
             for c in cancels:
-                rec(evs + [(c, k)], nextk, seen0, {a: b for a, b in pend.items() if a != k}, now, known)
-        rec(evs + [("T", DELTA)], nextk, seen0, {k: v for k, v in pend.items() if v[1] > now + DELTA}, now + DELTA, known)
+                rec(evs + [(c, k)], nextk, seen0, {a: b for a, b in pend.items() if a != k}, now, known, last)
+        rec(evs + [("T", DELTA)], nextk, seen0, {k: v for k, v in pend.items() if v[1] > now + DELTA}, now + DELTA, known, last)
 
     rec(list(prefix), *replay(prefix))
     return out
@@ -613,7 +688,7 @@ def blur(c, amb):
     return ";".join(cells) + "|" + r + "|" + d
 
 
-def classify(kind, events, impl, model):
+def classify(kind, events, impl, model, ep=None):
     """-> list of (key, what, found_input) for one schedule (empty = fine)"""
     amb = ambiguous_callers(kind, events)
     impl_s, model_b = strip_exc(blur(impl, amb)), blur(model, amb)
@@ -642,6 +717,11 @@ def classify(kind, events, impl, model):
     for k in got:
         if k not in exp:
             probs.append((f"sched:{kind}:wrong-outcome:unexpected", f"{kind}: unexpected outcome for caller {k}: {got[k]}", True))
+    if ep is not None and ep != "?":
+        want_ep = expected_endpoints(kind, events)
+        if ep != want_ep:
+            probs.append((f"sched:{kind}:stale-endpoint",
+                          f"{kind}: discoveries must point at the latest valid record ({want_ep}) but point at {ep}", True))
     if not probs and impl_s != model_b:
         probs.append((f"sched:{kind}:model-mismatch", f"{kind}: implementation {impl_s} != model {model_b}", False))
     return probs
@@ -652,14 +732,14 @@ def sched_job(job):
     kind, prefix, depth, exe = job
     scheds = expand(kind, prefix, depth)
     t0 = time.time()
-    impl = run_impl(kind, scheds)
+    impl, eps = run_impl(kind, scheds, want_ep=True)
     t1 = time.time()
     model = run_model(Driver(exe, workers=1), kind, scheds)
     t2 = time.time()
     summary = dict(n=len(scheds), nontrivial=0, hist={}, problems={}, samples=[], t_impl=t1 - t0, t_model=t2 - t1,
                    checked=0)
     hist = summary["hist"]
-    for evs, i, m in zip(scheds, impl, model):
+    for evs, i, m, ep in zip(scheds, impl, model, eps):
         nw = sum(1 for e in evs if e[0] == "F")
         if nw:
             summary["nontrivial"] += 1
@@ -670,6 +750,8 @@ def sched_job(job):
         want = ";".join(f"{k}={exp[k]}" for k in sorted(exp))
         if not amb and got != want:
             fine = False
+        if kind != "ble" and ep != expected_endpoints(kind, evs):
+            fine = False
         for cell in got.split(";"):
             if cell:
                 oc = cell.split("=")[1].split(":")[0]
@@ -677,12 +759,12 @@ def sched_job(job):
         hist[f"waiters={nw}"] = hist.get(f"waiters={nw}", 0) + 1
         if not fine:
             summary["checked"] += 1
-            for key, what, found in classify(kind, evs, i, m):
+            for key, what, found in classify(kind, evs, i, m, ep):
                 old = summary["problems"].get(key)
                 if old is None or len(evs) < len(old["events"]) or (len(evs) == len(old["events"]) and str(evs) < str(old["events"])):
                     n = 1 if old is None else old["count"] + 1
                     summary["problems"][key] = dict(what=what, found_input=found, events=evs, impl=i, model=m,
-                                                    expected=want, count=n)
+                                                    expected=want, count=n, endpoints=ep)
                 else:
                     old["count"] += 1
     if scheds:
@@ -694,6 +776,7 @@ def sched_job(job):
 def run_sched_stream(ctx, cov, viols, timing):
     tier, exe = ctx["tier"], ctx["driver"]
     depths = {"quick": dict(mdns=6, ble=6, agg=5), "thorough": dict(mdns=7, ble=7, agg=6)}[tier]
+    BLE_REPEAT[0] = tier != "quick"
     jobs = []
     for kind, depth in depths.items():
         split = 2 if depth <= 5 else 3
@@ -732,10 +815,12 @@ def run_sched_stream(ctx, cov, viols, timing):
     cov.extra["schedules"] = dict(tot, depth=depths)
     for key, p in sorted(probs.items()):
         small = shrink_schedule(p["events"], key.split(":")[1], key, exe)
-        what = next((w for k2, w, _ in classify(key.split(":")[1], small["events"], small["impl"], small["model"]) if k2 == key), p["what"])
+        what = next((w for k2, w, _ in classify(key.split(":")[1], small["events"], small["impl"], small["model"],
+                                                small["endpoints"]) if k2 == key), p["what"])
         viols.append(violation(key, what + f" [{p['count']} schedules]", p["found_input"], stream="sched",
                                kind=key.split(":")[1], events=[list(e) for e in small["events"]], impl=small["impl"],
-                               model=small["model"], expected=small["expected"],
+                               model=small["model"], expected=small["expected"], endpoints=small["endpoints"],
+                               expected_endpoints=small["expected_endpoints"],
                                advertisements={e[1]: _adv_repr(e[1]) for e in small["events"] if e[0] in ("A", "Ab")},
                                **({} if p["found_input"] else dict(broken="correspondence Model/Find.v <-> controllers"))))
 
@@ -754,9 +839,9 @@ def shrink_schedule(events, kind, key, exe):
     drv = Driver(exe, workers=1)
 
     def probe(evs):
-        i = run_impl(kind, [evs])[0]
+        ii, ee = run_impl(kind, [evs], want_ep=True)
         m = run_model(drv, kind, [evs])[0]
-        return i, m, [k for k, _, _ in classify(kind, evs, i, m)]
+        return ii[0], m, [k for k, _, _ in classify(kind, evs, ii[0], m, ee[0])], ee[0]
     cur = list(events)
     i = 0
     while i < len(cur) - 1:
@@ -772,9 +857,10 @@ def shrink_schedule(events, kind, key, exe):
             cur = cand
         else:
             i += 1
-    im, mo, _ = probe(cur)
+    im, mo, _, ee = probe(cur)
     exp = oracle_schedule(kind, cur)
-    return dict(events=cur, impl=im, model=mo, expected=";".join(f"{k}={exp[k]}" for k in sorted(exp)))
+    return dict(events=cur, impl=im, model=mo, expected=";".join(f"{k}={exp[k]}" for k in sorted(exp)),
+                endpoints=ee, expected_endpoints=expected_endpoints(kind, cur))
 
 
 # ================================================================ case-variant / browser-path / pairing schedules
@@ -795,6 +881,23 @@ def extra_schedules():
         out.append((kind, [("F", 1, X, 0), ("A", a), ("F", 2, X, 0), ("T", FLUSH)]))
         out.append((kind, [("F", 1, X, 0), ("F", 2, X, 1), ("T", 1), ("A", a), ("T", FLUSH)]))
         out.append((kind, [("F", 1, X, 40960), ("F", 2, Y, 122880), ("T", 40959), ("A", a), ("T", 81920), ("T", 2)]))
+    # one service name / one BLE address with a history: the later record is judged like a first one
+    hist_m = [["m0n1", "m0v1"], ["m0n1", "m0p1"], ["m0l2", "m0v2"], ["m0l2", "m0p2"], ["m0v1", "m0p1"], ["m0v1", "m0p1", "m0v1"],
+              ["m0i0", "m0v1"], ["m0i2", "m0v1"], ["m0v1", "m1v2", "m0p1"], ["m0v1", "m1v2", "m0v1"], ["m0n1", "m1n2", "m1v2", "m0v1"],
+              ["m0n1", "m0n1", "m0v1"], ["m0v1", "m0n1", "m0p1"], ["m0v1", "m0v3", "m0p3"]]
+    hist_b = [["b0i0", "b0v1"], ["b0i1", "b0v1"], ["b0i3", "b0v1"], ["b0v1", "b0v1"], ["b0v1", "b0v2"], ["b0v1", "b1v2", "b0v1"],
+              ["b0v1", "b0i0", "b0v1"], ["b0v1", "b0i0", "b0v3"]]
+    for kind, hists in (("mdns", hist_m), ("agg", hist_m + hist_b), ("ble", hist_b)):
+        for h in hists:
+            wid = X.upper() if kind == "mdns" else X
+            advs = [("A", a) for a in h]
+            out.append((kind, [("F", 1, wid, 16)] + advs[:1] + [("T", 5)] + advs[1:] + [("T", FLUSH)]))
+            out.append((kind, advs[:1] + [("F", 1, wid, 16), ("F", 2, Y, 8)] + advs[1:] + [("T", FLUSH)]))
+            out.append((kind, advs + [("F", 1, wid, 16), ("T", FLUSH)]))
+            out.append((kind, advs[:-1] + [("F", 1, wid, 16), ("T", 5)] + advs[-1:] + [("T", FLUSH)]))
+            if kind == "mdns":
+                out.append((kind, [("F", 1, wid, 8192)] + [("Ab", a) for a in h] + [("T", 16384)]))
+                out.append((kind, [("Ab", a) for a in h[:-1]] + [("F", 1, wid, 8192), ("Ab", h[-1]), ("T", 16384)]))
     for sym in ("m0v1", "m0v2", "m1v3", "m0i0", "m0i1", "m0i2"):
         out.append(("mdns", [("F", 1, X, 4096), ("Ab", sym), ("T", 8192)]))
         out.append(("mdns", [("Ab", sym), ("F", 1, X.upper(), 8), ("T", FLUSH)]))
@@ -818,11 +921,11 @@ def run_extra_stream(ctx, cov, viols):
     for kind, evs in cases:
         by_kind.setdefault(kind, []).append(evs)
     for kind, scheds in by_kind.items():
-        impl = run_impl(kind, scheds)
+        impl, eps = run_impl(kind, scheds, want_ep=True)
         model = run_model(drv, kind, scheds)
-        for evs, i, m in zip(scheds, impl, model):
+        for evs, i, m, ep in zip(scheds, impl, model, eps):
             pairing = next(("state" if e[2] else "nostate" for e in evs if e[0] == "L"), "none")
-            probs = classify(kind, evs, i, m)
+            probs = classify(kind, evs, i, m, ep)
             cov.case("x" + kind + repr(evs), True,
                      sample=dict(stream="extra", kind=kind, events=[list(e) for e in evs], impl=i) if cov.evaluations % 97 == 0 else None,
                      extra_kind=kind, extra_pairing=pairing)
@@ -834,7 +937,8 @@ def run_extra_stream(ctx, cov, viols):
                 else:
                     key = key.replace("sched:", "extra:")
                 viols.append(violation(key, what + f" (pairing situation: {pairing})", found, stream="extra", kind=kind,
-                                       events=[list(e) for e in evs], impl=i, model=m,
+                                       events=[list(e) for e in evs], impl=i, model=m, endpoints=ep,
+                                       expected_endpoints=expected_endpoints(kind, evs),
                                        advertisements={e[1]: _adv_repr(e[1]) for e in evs if e[0] in ("A", "Ab")}))
 
 
@@ -1310,10 +1414,11 @@ def replay(ctx):
         evs = [tuple(e) for e in v["events"]]
         kind = v["kind"]
         if all(e[1] in CAT for e in evs if e[0] in ("A", "Ab")):
-            i = run_impl(kind, [evs])[0]
+            ii, ee = run_impl(kind, [evs], want_ep=True)
+            i = ii[0]
             m = run_model(Driver(ctx["driver"], workers=1), kind, [evs])[0]
-            cov.case(repr(evs), True, sample=dict(events=v["events"], impl=i, model=m))
-            for key, what, found in classify(kind, evs, i, m):
+            cov.case(repr(evs), True, sample=dict(events=v["events"], impl=i, model=m, endpoints=ee[0]))
+            for key, what, found in classify(kind, evs, i, m, ee[0]):
                 viols.append(violation(key, what, found, stream="sched", kind=kind, events=v["events"], impl=i, model=m))
     elif v.get("stream") == "parse":
         which, case = v["parser"], v["case"]
